@@ -190,21 +190,12 @@ def partitions(ck, an):
                          "elapsed time is exact (timedelta.total_seconds())", f"elapsed time is computed as {prevk}", construct="sec_since_timestep = ...")
                 at_ = fa.node_of(lat_app[0]).id
                 okp = False
-                # the slot index expression as the code names it (S1 checks separately that it is a bisect_left-family search)
-                keyexpr = lat_app[0].func.value.slice
-                idx_txt = None
-                if isinstance(keyexpr, ast.Name):
-                    kd = [d for d in fa.rd.reaching(keyexpr.id, at_) if d.kind == "assign"]
-                    if len(kd) == 1 and isinstance(kd[0].value, ast.Subscript) and ast.unparse(kd[0].value.value) == "self.timesteps":
-                        idx_txt = ast.unparse(kd[0].value.slice)
-                elif isinstance(keyexpr, ast.Subscript) and ast.unparse(keyexpr.value) == "self.timesteps":
-                    idx_txt = ast.unparse(keyexpr.slice)
-                for sent in ("datetime(1800, 1, 1)", "datetime.min", "pd.Timestamp.min"):
-                    if idx_txt is None:
-                        break
-                    spec = fa.sym.canon(ast.parse(f"({ev}.time - (self.timesteps[({idx_txt}) - 1] if ({idx_txt}) - 1 >= 0 else {sent})).total_seconds()", mode="eval").body, at_)
-                    if prevk == spec:
-                        okp = True
+                # the slot index: one of the bisect_left-family searches S1 accepts (by value id, whatever local carries it)
+                for idx_txt in (f"bisect.bisect_left(self.timesteps, {ev}.time)", f"np.searchsorted(self.timesteps, {ev}.time)"):
+                    for sent in ("datetime(1800, 1, 1)", "datetime.min", "pd.Timestamp.min"):
+                        spec = fa.sym.canon(ast.parse(f"({ev}.time - (self.timesteps[({idx_txt}) - 1] if ({idx_txt}) - 1 >= 0 else {sent})).total_seconds()", mode="eval").body, at_)
+                        if prevk == spec:
+                            okp = True
                 ck.check(okp, "ARGFLOW", "S5.elapsed-since-previous-timestep", subj, fa.loc(lat_app[0]),
                          "elapsed time is measured from timesteps[index - 1] when index - 1 >= 0, from a far-past sentinel otherwise", f"elapsed time is {prevk[:200]}", construct="timestep_previous = self.timesteps[index - 1] if index - 1 >= 0 else <far past>")
             elif a[1] == "<" and poly_mentions(a[4], lat_p, sign=-1):
